@@ -1,5 +1,5 @@
 (* Properties_C08.v — obligations of property C08 (RadioText A/B protocol). *)
-Require Import ObsRun Lemmas_TextProps Lemmas_CbRt Lemmas_ObsEv Lemmas_Leaf.
+Require Import ObsRun Lemmas_TextProps Lemmas_CbRt Lemmas_ObsEv Lemmas_Leaf_C08.
 Local Open Scope Z_scope.
 
 (* the register "flag last seen" of a reachable state is the history function h_last_rt: the A/B
